@@ -8,7 +8,7 @@ from manifest_text import TEXT, NOT_APPLICABLE, HOOK_COMMITS
 
 GO = "/root/go/pkg/mod/golang.org/toolchain@v0.0.1-go1.24.0.linux-amd64/bin/go"
 checks = []
-for pid in sorted(PROPS):
+for pid in sorted(TEXT):
     cfg = PROPS[pid]
     t = TEXT[pid]
     checks.append({
@@ -32,7 +32,7 @@ m = {
         "source_commits": HOOK_COMMITS,
         "add_only": True,
     },
-    "engines": [{"name": "rapid-go", "path": "/verif/check", "serves_properties": sorted(PROPS),
+    "engines": [{"name": "rapid-go", "path": "/verif/check", "serves_properties": sorted(TEXT),
                  "kind_free_text": "property-based testing with pgregory.net/rapid v1.3.0 (generators, state machines, shrinking), exhaustive enumeration of small finite sub-spaces, native go fuzzing in the thorough tier; python3 driver shards by seed over 16 worker processes and merges evidence"}],
     "checks": checks,
     "not_applicable": NOT_APPLICABLE,
